@@ -137,12 +137,14 @@ def _collect(tier):
     for j in jobs:
         sc = j["scenarios"][0]
         if sc["expand"]:
-            for call in sorted(errors):
+            # the large file is slow to fix: fail / kill only the calls of the write path for it
+            errs_sc = ERRORS_QUICK if sc["kind"] == "big" else errors
+            for call in sorted(errs_sc):
                 jj = dict(j)
-                jj["errors"] = {call: errors[call]}
+                jj["errors"] = {call: errs_sc[call]}
                 jj["out"] = j["out"].replace(".json", "_%s.json" % call)
                 jj["work"] = j["work"] + "_" + call
-                jj["next_id"] = sc["id"] + 1000 * (1 + sorted(errors).index(call))
+                jj["next_id"] = sc["id"] + 1000 * (1 + sorted(errs_sc).index(call))
                 jj["drop_base"] = True
                 jobs2.append(jj)
             j = dict(j)
